@@ -526,6 +526,28 @@ def t4(ctx):
         if not inside and not rpos < apos:
             return 'wrong', 'the children are reversed after they were pushed', facts
         if event:
+            # must-pass-through: on every control path on which the popped item is an Enter(x), a Leave(..) is pushed
+            from vlib import paths as _paths
+            try:
+                allp = _paths.enumerate_paths(body, loops=True)
+            except _paths.Unmodelled:
+                allp = None
+            if allp is not None:
+                def is_enter_path(p_):
+                    for c_, pol in p_.conds:
+                        if c_.get('k') == 'let' and pol and 'NodeEvent::Enter(' in squash(sx.render(c_['pat'])):
+                            return True
+                        if c_.get('k') == 'arm' and 'NodeEvent::Enter(' in squash(sx.render(c_['pat'])):
+                            return True
+                    return False
+                enter_paths = [p_ for p_ in allp if is_enter_path(p_)]
+                facts['enter_paths'] = len(enter_paths)
+                for p_ in enter_paths:
+                    leave = [n for n in p_.calls if n.get('k') == 'mcall' and n['m'] == 'push' and squash(sx.render(n['recv'])) == 'self.next.0'
+                             and 'Leave' in squash(sx.render(n['args'][0]))]
+                    if not leave:
+                        conds_ = [('' if pol else 'not ') + squash(sx.render(c_))[:40] for c_, pol in p_.conds if c_.get('k') not in ('arm',)][-2:]
+                        return 'wrong', 'on a path on which the popped item is an Enter (%s) no Leave is pushed: that node gets an Enter without a matching Leave' % ' and '.join(conds_), facts
             pushes = [n for n in sx.walk(body) if n.get('k') == 'mcall' and n['m'] == 'push' and squash(sx.render(n['recv'])) == 'self.next.0']
             facts['leave_pushes'] = [squash(sx.render(p)) for p in pushes]
             if len(pushes) != 1:
